@@ -1,3 +1,242 @@
-(* C07 — placeholder while the simulation proofs are being written: pins only. *)
-From RM Require Import Model.Decoders.
-Example C07_decoders_exist : True. Proof. exact I. Qed.
+(* C07 — Specialised decoders agree with the full decoder.
+
+   "For every input, each specialised decoder (General, Editor, Metadata,
+   Difficulty, Events, Colours, TimingPoints, HitObjects) returns exactly the
+   values that the full Beatmap decoder returns for the fields they share.
+   Choosing a cheaper decoder never changes what is read."
+
+   Statements only, each closed by [exact] of a lemma of
+   Proofs/DecodersFacts.v / Proofs/DecodersTotal.v and followed by
+   Print Assumptions; plus Examples on dumps (non-vacuity).
+
+   The nine decoders are the nine instantiations of the framing [driver] in
+   Model/Decoders.v, with their own nested parser states and their delegation
+   chains written out as in beatmap.rs, section/hit_objects/decode.rs,
+   section/timing_points/decode.rs and the six single-section impls.  Input =
+   the list of lines [Decoder::read_line] delivers (the byte -> line layer is
+   C10 / C08 / C05).  Every statement is for every [dist_of], the slider-curve
+   distance used by the finishing step of HitObjects / Beatmap (supplied by
+   the curve model).
+
+   Reading of "exactly":
+     (1) whenever the Beatmap decode returns a value, the specialised decode
+         returns the projection of that value on the shared fields
+         (C07_general .. C07_hit_objects);
+     (2) HitObjects and Beatmap fail on exactly the same files, with the same
+         outcome (C07_hit_objects_exact: an equation between outcomes);
+     (3) the parse itself never fails for any decoder; the only step that can
+         is the curve distance in the HitObjects / Beatmap finishing loop
+         (C07_beatmap_fails_only_in_dist).  With [dist_total] (the curve
+         package's obligation) all nine decoders return values and the eight
+         equations hold together (C07_decoders_agree). *)
+From RM Require Import Model.Decoders Model.Drv07 Proofs.FramingFacts
+     Proofs.ControlPointsFacts Proofs.DecodersFacts Proofs.DecodersTotal.
+Open Scope Z_scope.
+
+(* ------------------------------------------------------------------ *)
+(* the same comment / blank-line rule in all nine decoders              *)
+
+Theorem C07_same_skip_rule :
+  (forall l, skip (simple_parsers SecGeneral parse_general) l = should_skip_line l) /\
+  (forall l, skip (simple_parsers SecEditor parse_editor) l = should_skip_line l) /\
+  (forall l, skip (simple_parsers SecMetadata parse_metadata) l = should_skip_line l) /\
+  (forall l, skip (simple_parsers SecDifficulty parse_difficulty) l = should_skip_line l) /\
+  (forall l, skip (simple_parsers SecEvents parse_events) l = should_skip_line l) /\
+  (forall l, skip (simple_parsers SecColors parse_colors) l = should_skip_line l) /\
+  (forall l, skip tp_parsers l = should_skip_line l) /\
+  (forall l, skip ho_parsers l = should_skip_line l) /\
+  (forall l, skip bm_parsers l = should_skip_line l).
+Proof.
+  repeat split; first [apply skip_simple | exact skip_tp | exact skip_ho | exact skip_bm].
+Qed.
+Print Assumptions C07_same_skip_rule.
+
+(* ------------------------------------------------------------------ *)
+(* (1) the specialised decoder returns the projection of the Beatmap    *)
+
+Theorem C07_general :
+  forall dist_of lines bv,
+  decode_beatmap dist_of lines = Done bv ->
+  hov_general (bmv_ho bv) = decode_general lines.
+Proof. exact beatmap_general. Qed.
+Print Assumptions C07_general.
+
+Theorem C07_editor :
+  forall dist_of lines bv,
+  decode_beatmap dist_of lines = Done bv -> bmv_editor bv = decode_editor lines.
+Proof. exact beatmap_editor. Qed.
+Print Assumptions C07_editor.
+
+Theorem C07_metadata :
+  forall dist_of lines bv,
+  decode_beatmap dist_of lines = Done bv -> bmv_metadata bv = decode_metadata lines.
+Proof. exact beatmap_metadata. Qed.
+Print Assumptions C07_metadata.
+
+Theorem C07_difficulty :
+  forall dist_of lines bv,
+  decode_beatmap dist_of lines = Done bv ->
+  hov_difficulty (bmv_ho bv) = decode_difficulty lines.
+Proof. exact beatmap_difficulty. Qed.
+Print Assumptions C07_difficulty.
+
+Theorem C07_events :
+  forall dist_of lines bv,
+  decode_beatmap dist_of lines = Done bv ->
+  hov_events (bmv_ho bv) = decode_events lines.
+Proof. exact beatmap_events. Qed.
+Print Assumptions C07_events.
+
+Theorem C07_colours :
+  forall dist_of lines bv,
+  decode_beatmap dist_of lines = Done bv -> bmv_colors bv = decode_colors lines.
+Proof. exact beatmap_colors. Qed.
+Print Assumptions C07_colours.
+
+(* TimingPoints = the General fields + the control points *)
+Theorem C07_timing_points :
+  forall dist_of lines bv,
+  decode_beatmap dist_of lines = Done bv ->
+  decode_timing_points lines =
+  Done (mkTPV (hov_general (bmv_ho bv)) (hov_control_points (bmv_ho bv))).
+Proof. exact beatmap_timing_points. Qed.
+Print Assumptions C07_timing_points.
+
+(* HitObjects = General, Difficulty, Events, control points, hit objects *)
+Theorem C07_hit_objects :
+  forall dist_of lines bv,
+  decode_beatmap dist_of lines = Done bv ->
+  decode_hit_objects dist_of lines = Done (bmv_ho bv).
+Proof. exact beatmap_hit_objects_done. Qed.
+Print Assumptions C07_hit_objects.
+
+(* ------------------------------------------------------------------ *)
+(* (2) HitObjects and Beatmap: one equation between outcomes            *)
+
+Theorem C07_hit_objects_exact :
+  forall dist_of lines,
+  decode_hit_objects dist_of lines =
+  obind (decode_beatmap dist_of lines) (fun bv => Done (bmv_ho bv)).
+Proof. exact beatmap_hit_objects. Qed.
+Print Assumptions C07_hit_objects_exact.
+
+Theorem C07_hit_objects_converse :
+  forall dist_of lines hv,
+  decode_hit_objects dist_of lines = Done hv ->
+  exists bv, decode_beatmap dist_of lines = Done bv /\ bmv_ho bv = hv.
+Proof. exact hit_objects_done_beatmap. Qed.
+Print Assumptions C07_hit_objects_converse.
+
+(* ------------------------------------------------------------------ *)
+(* (3) where a decode can fail at all                                   *)
+
+(* the six single-section decoders return a value by type (their parsers
+   have no panic point and no unbounded loop); TimingPoints always does: *)
+Theorem C07_timing_points_total :
+  forall lines, exists tv, decode_timing_points lines = Done tv.
+Proof. exact decode_timing_points_total. Qed.
+Print Assumptions C07_timing_points_total.
+
+(* Beatmap: the parse never fails; the decode is the finishing conversion of
+   a parser state with sorted control points, which fails only where a
+   slider's curve distance [dist_of] does (Proofs/DecodersTotal.v,
+   process_object_total) *)
+Theorem C07_beatmap_fails_only_in_dist :
+  forall dist_of lines,
+  exists s, cp_sorted (tpd_cp (hod_tp (bmd_ho s))) /\
+            decode_beatmap dist_of lines = bmd_finish dist_of s.
+Proof. exact decode_beatmap_fails_only_in_dist. Qed.
+Print Assumptions C07_beatmap_fails_only_in_dist.
+
+(* all of it together, under the curve package's obligation *)
+Theorem C07_decoders_agree :
+  forall dist_of, dist_total dist_of -> forall lines,
+  exists bv,
+    decode_beatmap dist_of lines = Done bv /\
+    decode_general lines = hov_general (bmv_ho bv) /\
+    decode_editor lines = bmv_editor bv /\
+    decode_metadata lines = bmv_metadata bv /\
+    decode_difficulty lines = hov_difficulty (bmv_ho bv) /\
+    decode_events lines = hov_events (bmv_ho bv) /\
+    decode_colors lines = bmv_colors bv /\
+    decode_timing_points lines =
+      Done (mkTPV (hov_general (bmv_ho bv)) (hov_control_points (bmv_ho bv))) /\
+    decode_hit_objects dist_of lines = Done (bmv_ho bv).
+Proof. exact decoders_agree. Qed.
+Print Assumptions C07_decoders_agree.
+
+(* ------------------------------------------------------------------ *)
+(* Examples (on dumps): one small file through all nine decoders         *)
+
+(* a stand-in curve distance for the examples: the expected distance *)
+Definition ex_dist (_ : Z) (_ : list PCP) (e : option F64) : outcome F64 :=
+  Done (match e with Some d => d | None => D.zero end).
+
+Definition ex_file : list str :=
+  map lit ["osu file format v12"; "[General]"; "Mode: 1"; "  // an indented comment";
+           "[Editor]"; "BeatDivisor: 7";
+           "[Metadata]"; "Title:t";
+           "[Difficulty]"; "SliderMultiplier:2";
+           "[Events]"; "2,300,200"; "2,100,150";
+           "[TimingPoints]"; "0,500,4,2,0,60,1,0"; "oops";
+           "[Colours]"; "Combo1 : 1,2,3";
+           "[HitObjects]"; "256,192,100,1,0"; "0,0,50,2,0,L|10:10,1,25"]%string.
+
+Definition ex_beatmap : list Z := dump_oc dump_bmv (decode_beatmap ex_dist ex_file).
+
+(* the Beatmap decode returns a value in which every section left a trace *)
+Example ex_beatmap_is_done_and_nontrivial :
+  hd 9 ex_beatmap = 0 /\ nth 1 ex_beatmap 0 = 12 /\
+  match decode_beatmap ex_dist ex_file with
+  | Done bv =>
+      g_mode (hov_general (bmv_ho bv)) = 1 /\ ed_beat_divisor (bmv_editor bv) = 7 /\
+      m_title (bmv_metadata bv) = lit "t" /\
+      length (ev_breaks (hov_events (bmv_ho bv))) = 2%nat /\
+      length (cp_timing (hov_control_points (bmv_ho bv))) = 1%nat /\
+      length (co_custom_combo_colors (bmv_colors bv)) = 1%nat /\
+      length (hov_hit_objects (bmv_ho bv)) = 2%nat
+  | _ => False
+  end.
+Proof. vm_compute. repeat split; reflexivity. Qed.
+
+(* ... and each specialised decoder returns its share of it *)
+Example ex_specialised_agree :
+  match decode_beatmap ex_dist ex_file with
+  | Done bv =>
+      dump_general (decode_general ex_file) = dump_general (hov_general (bmv_ho bv)) /\
+      dump_editor (decode_editor ex_file) = dump_editor (bmv_editor bv) /\
+      dump_metadata (decode_metadata ex_file) = dump_metadata (bmv_metadata bv) /\
+      dump_difficulty_v (decode_difficulty ex_file) = dump_difficulty_v (hov_difficulty (bmv_ho bv)) /\
+      dump_events (decode_events ex_file) = dump_events (hov_events (bmv_ho bv)) /\
+      dump_colors (decode_colors ex_file) = dump_colors (bmv_colors bv) /\
+      dump_oc dump_tpv (decode_timing_points ex_file) =
+        0 :: dump_general (hov_general (bmv_ho bv)) ++ dump_cp (hov_control_points (bmv_ho bv)) /\
+      dump_oc dump_hov (decode_hit_objects ex_dist ex_file) = 0 :: dump_hov (bmv_ho bv)
+  | _ => False
+  end.
+Proof. vm_compute. repeat split; reflexivity. Qed.
+
+(* the specialised decoders differ from each other and from the defaults:
+   the statements above are not about constant functions *)
+Example ex_not_default :
+  dump_general (decode_general ex_file) <> dump_general general_default /\
+  dump_events (decode_events ex_file) <> dump_events events_default /\
+  dump_oc dump_tpv (decode_timing_points ex_file) <> dump_oc dump_tpv (decode_timing_points []).
+Proof. vm_compute. repeat split; discriminate. Qed.
+
+(* the breaks of the Events section reach the Beatmap in file order (not
+   sorted): 300..200 is clamped by the parser, the order of the two lines is
+   kept by every decoder *)
+Example ex_breaks_in_file_order :
+  map (fun b => D.bits (bp_start b)) (ev_breaks (decode_events ex_file))
+  = map D.bits [D.of_Z 300; D.of_Z 100].
+Proof. vm_compute. reflexivity. Qed.
+
+(* a dist_of that fails makes Beatmap and HitObjects fail alike (a slider is
+   present), while TimingPoints and the simple decoders are unaffected *)
+Definition ex_dist_fails (_ : Z) (_ : list PCP) (_ : option F64) : outcome F64 := Panic 77.
+Example ex_dist_failure_is_shared :
+  dump_oc dump_bmv (decode_beatmap ex_dist_fails ex_file) = [1; 77] /\
+  dump_oc dump_hov (decode_hit_objects ex_dist_fails ex_file) = [1; 77] /\
+  hd 9 (dump_oc dump_tpv (decode_timing_points ex_file)) = 0.
+Proof. vm_compute. repeat split; reflexivity. Qed.
